@@ -3,6 +3,9 @@ From Coq Require Import List String.
 From SCC Require Import Base.Sexp Model.RunBase Model.RunPM Model.RunX86.
 From SCC Require Import Base.Sexp Model.RunBase Model.RunPM Model.RunStages.
 From SCC Require Import Base.Sexp Model.RunBase Model.RunRV.
+From SCC Require Import Model.RunA64.
+From SCC Require Import Model.RunFun2Core.
+From SCC Require Import Model.RunRT.
 Open Scope string_scope.
 
 Definition dispatch (cmd : string) (input : string) : string :=
@@ -12,5 +15,8 @@ Definition dispatch (cmd : string) (input : string) : string :=
   | "stages" => run_stages input
   | "codegen-rv" => run_codegen_rv input
   | "sem-rv" => run_sem_rv input
+  | "codegen-a64" => run_codegen_a64 input
+  | "fun2core" => run_fun2core input
+  | "rt" => run_rt input
   | _ => "BAD - unknown command " ++ cmd ++ nl
   end.
